@@ -312,6 +312,37 @@ def oracle(ctx, heavy=False):
                     ctx.fail("oracle", "ivp:%s:tuple" % meth, {"family": name}, float((got - cat).abs().max()),
                              "list-of-tensors state equals concatenated state")
                 ctx.count(("tuple", name, meth, direction))
+    time_unit_oracle(ctx)
+
+
+def time_unit_oracle(ctx):
+    """The controller |h sum_i E_i K_i| <= atol + rtol |y| does not depend on the unit of time: with a rate k = 2^-j the
+    stage slopes scale by k and the steps by 1/k exactly, so the trajectory at the rescaled times is the same and the
+    global error stays a modest multiple of the tolerance on long intervals too (seeded defect C07/2: the factor h of
+    the error norm dropped - short intervals only over-estimate the error, long ones under-estimate it)."""
+    from xitorch.integrate import solve_ivp
+    Arot = torch.tensor([[0.0, 1.0], [-1.0, 0.0]], dtype=DT)
+    y0 = torch.tensor([1.0, 0.0], dtype=DT)
+    for meth in ("rk45", "rk23"):
+        for rtol, atol in ((1e-6, 1e-9), (1e-4, 1e-7)):
+            ref = None
+            for j in (0, 7, 10, -6):
+                k = 2.0 ** -j
+                f = guarded(lambda t, y: k * (Arot @ y), 400000)
+                ts = torch.linspace(0, 10.0 / k, 6, dtype=DT)
+                yt = solve_ivp(f, ts, y0, method=meth, rtol=rtol, atol=atol)
+                th = k * ts
+                exact = torch.stack([torch.cos(th), -torch.sin(th)], dim=-1)
+                err = float((yt - exact).norm(dim=-1).max())
+                ctx.count(("time-unit", meth, rtol, j))
+                info = {"family": "rotation with rate 2^-%d on [0, 10*2^%d]" % (j, j), "method": meth, "rtol": rtol, "atol": atol}
+                if err > 100 * (atol + rtol):
+                    ctx.fail("oracle", "ivp:%s:accuracy-long-interval" % meth, info, err, "<= %g" % (100 * (atol + rtol)))
+                if ref is None:
+                    ref = yt
+                elif float((yt - ref).abs().max()) > 1e-9:
+                    ctx.fail("oracle", "ivp:%s:time-unit-dependence" % meth, info, float((yt - ref).abs().max()),
+                             "the same trajectory in every unit of time")
 
 
 def search(ctx):
